@@ -6,9 +6,17 @@ LEAN_MODULES = ["GoaktVerif.Props.C12"]
 THEOREMS = [
     "GoaktVerif.C12.touchInterval_tie",
     "GoaktVerif.C12.log_sound",
+    "GoaktVerif.C12.log_good",
+    "GoaktVerif.C12.invO_reachable",
+    "GoaktVerif.C12.cinv_reachable",
     "GoaktVerif.C12.C12_guards",
     "GoaktVerif.C12.C12_decision_after_deadline",
     "GoaktVerif.C12.C12_count_threshold",
+    "GoaktVerif.C12.C12_count",
+    "GoaktVerif.C12.C12_poststop_accounting",
+    "GoaktVerif.C12.C12_once_partial",
+    "GoaktVerif.C12.C12_stopped",
+    "GoaktVerif.C12.C12_partial",
     "GoaktVerif.C12.witnessTwice_postStops",
     "GoaktVerif.C12.witnessRace_event",
     "GoaktVerif.C12.C12_refuted",
@@ -20,7 +28,7 @@ GO2LEAN = {"targets": [
 INPKG = ["actor/zz_verif_c12.go"]
 TIMEOUT = 900
 MANIFEST = {
-    "level_text": "Kernel-checked theorems over an executable model of passivationManager (incl. Go's container/heap and the entry.index bookkeeping), the PID side (markActivity coalescing, tryPassivation guards in the code's order, pause/resume/suspend/reinstate/Shutdown) and the manager's unlock window, for ALL operation sequences and clock values: every timer-path attempt happens at or after the entry's deadline, a successful tryPassivation saw none of long-lived / system-stopping / skip-next / stopping / suspended / paused, the message-count trigger is raised only at or above baseline+N (log_sound, C12_guards, C12_decision_after_deadline, C12_count_threshold). The full statement is REFUTED with two witnesses replayed on the real code (C12_refuted: PostStop twice, finding C12-F1 with a proposed fix; C12_time_refuted: a message handled inside the unlock window, finding C12-F2). The model is tied to /repo by a differential run of the real passivationManager and real actors of a real actor system against the model's step function (every op's result and the complete manager/PID state after every op), and the 100ms constant is regenerated from actor/pid.go.",
+    "level_text": "Kernel-checked theorems over an executable model of passivationManager (incl. Go's container/heap and the entry.index bookkeeping), the PID side (markActivity coalescing, tryPassivation guards in the code's order, pause/resume/suspend/reinstate/Shutdown) and the manager's unlock window, for ALL operation sequences and clock values: every timer-path attempt happens at or after the entry's deadline, a successful tryPassivation saw none of long-lived / system-stopping / skip-next / stopping / suspended / paused, the message-count trigger is raised only at or above baseline+N and every count-path attempt goes back to such a crossing of the same entry object (log_sound, C12_guards, C12_decision_after_deadline, C12_count_threshold, C12_count); an actor's PostStop count = stops while running (at most ONE, ever) + stops of an already stopped actor, so PostStop runs twice only through a passivation attempt on a stopped actor (C12_poststop_accounting, C12_once_partial); a passivated actor is not running and its PostStop ran (C12_stopped); all combined in C12_partial. The full statement is REFUTED with two witnesses replayed on the real code (C12_refuted: PostStop twice, finding C12-F1 with a proposed fix; C12_time_refuted: a message handled inside the unlock window, finding C12-F2). The model is tied to /repo by a differential run of the real passivationManager and real actors of a real actor system against the model's step function (every op's result and the complete manager/PID state after every op), and the 100ms constant is regenerated from actor/pid.go.",
     "level_note": "Partial: the full property is false of the current code (two findings). Timing is a virtual clock: the real manager reads time.Now, the harness shifts all stored timestamps instead (no claim about timer lateness, goroutine scheduling of run(), or the select between timer and message triggers beyond 'any order of tick/drain ops'). The unlock window is modelled by whole operations of other goroutines completing inside it; finer interleavings inside tryPassivation/Shutdown (stopLocker) and the markActivity CAS under concurrent callers are not modelled. Restart/re-spawn of a stopped actor is not modelled. Grain passivation (grainPID) is out of scope.",
     "technique": "Lean 4 proof (inductive invariants over all op sequences) on a hand-written model tied by a model/implementation differential on a virtual clock",
 }
